@@ -1249,6 +1249,24 @@ func runListener(r *common.Run, ops []string, class string) {
 		err error
 	}
 	accCh := make(chan acc, 64)
+	expCh := make(chan acc, 8)
+	var expCancel context.CancelFunc
+	expecting := -1   // number of the open request the waiting Expect call asked for
+	// the waiting Expect call returns now (its outcome is caused by the op at index idx)
+	collectExpect := func(obs []string, idx int, line func() []string) {
+		select {
+		case a := <-expCh:
+			if a.err == nil && a.c != nil {
+				obs[idx] += "+xc"
+			} else {
+				obs[idx] += "+xe"
+			}
+		case <-time.After(watchdog):
+			obs[idx] += "+xSTALL"
+			r.Fail("open-iff-accepted", "expect-does-not-return", line(), "an Expect call that should have ended did not return")
+		}
+		expecting = -1
+	}
 	waiting := 0      // Accept calls that have not returned
 	pendingOpen := -1 // index (in obs) of an open whose reply is still in the handler
 	pendingID := ""
@@ -1308,6 +1326,9 @@ func runListener(r *common.Run, ops []string, class string) {
 			ln.Close()
 			n := waiting
 			collect(idx, n)
+			if expecting >= 0 {
+				collectExpect(obs, idx, line)
+			}
 			listening = false
 			if pendingOpen >= 0 {
 				obs[pendingOpen] = reply(pendingID)
@@ -1332,6 +1353,35 @@ func runListener(r *common.Run, ops []string, class string) {
 			default:
 				time.Sleep(200 * time.Microsecond) // let it reach its select
 			}
+		case 'E':
+			if ln == nil {
+				toks = toks[:len(toks)-1]
+				continue
+			}
+			toks[len(toks)-1] = fmt.Sprintf("E%d", nOpen+1)
+			obs = append(obs, "e")
+			ctx, cancel := context.WithCancel(context.Background())
+			l, sid := ln, fmt.Sprintf("L%d", nOpen+1)
+			prev := expecting >= 0
+			go func() { c, err := l.Expect(ctx, jid.MustParse(peerJID), sid); expCh <- acc{c, err} }()
+			if prev {
+				collectExpect(obs, idx, line) // a second Expect for the same stream replaces the first
+			}
+			if !listening {
+				collectExpect(obs, idx, line) // closed listener: returns at once
+				cancel()
+				break
+			}
+			expCancel, expecting = cancel, nOpen+1
+			time.Sleep(300 * time.Microsecond) // let it register
+		case 'X':
+			if expecting < 0 {
+				toks = toks[:len(toks)-1]
+				continue
+			}
+			obs = append(obs, "x")
+			expCancel()
+			collectExpect(obs, idx, line)
 		case 'O':
 			nOpen++
 			id := fmt.Sprintf("o%d", nOpen)
@@ -1339,6 +1389,9 @@ func runListener(r *common.Run, ops []string, class string) {
 			toks[len(toks)-1] = fmt.Sprintf("O%d", nOpen)
 			p.feed(fmt.Sprintf(`<iq xmlns="jabber:client" type="set" id="%s" from="%s" to="me@example.net/h"><open xmlns="http://jabber.org/protocol/ibb" sid="%s" block-size="16" stanza="iq"/></iq>`, id, peerJID, sid))
 			switch {
+			case listening && expecting == nOpen:
+				obs = append(obs, reply(id))
+				collectExpect(obs, idx, line)
 			case !listening:
 				rep := reply(id)
 				obs = append(obs, rep)
@@ -1366,18 +1419,21 @@ func runListener(r *common.Run, ops []string, class string) {
 		obs[pendingOpen] = reply(pendingID)
 		pendingOpen = -1
 	}
-	if ln != nil && waiting > 0 {
+	if ln != nil && (waiting > 0 || expecting >= 0) {
 		toks = append(toks, "K")
 		idx := len(obs)
 		obs = append(obs, "k")
 		ln.Close()
 		collect(idx, waiting)
+		if expecting >= 0 {
+			collectExpect(obs, idx, line)
+		}
 		if pendingOpen >= 0 {
 			obs[pendingOpen] = reply(pendingID)
 		}
 	}
 	if !p.sync() {
-		r.Fail("serve-continues", "serve-stalled-after-listener-history", line(), "the serve loop no longer answers")
+		r.Fail("serve-continues", "serve-stalled-after-listener-history", line(), "the serve loop no longer answers (an open request was handed to a call that no longer waits for it)")
 	}
 	l := "lsn " + common.Join(toks, ",")
 	r.Line(l, common.Join(obs, ","))
@@ -1385,4 +1441,96 @@ func runListener(r *common.Run, ops []string, class string) {
 		fmt.Fprintln(os.Stderr, l, "=>", common.Join(obs, ","))
 	}
 	r.Case(l, true, class)
+}
+
+// runReaders: k goroutines are parked in Read on an empty stream (each between its
+// empty check and its wait, at the ibb.read.wait yield point); then a close by the
+// peer or locally, or data followed by a close, happens; then all are released.
+// Every Read must return within the watchdog: one signal has to wake them all.
+func runReaders(r *common.Run, k int, events string) {
+	p, err := newPeer()
+	if err != nil {
+		return
+	}
+	defer p.stop()
+	ln := p.h.Listen(p.rs.S)
+	acc := make(chan net.Conn, 1)
+	go func() { c, _ := ln.Accept(); acc <- c }()
+	p.feed(fmt.Sprintf(`<iq xmlns="jabber:client" type="set" id="o1" from="%s" to="me@example.net/h"><open xmlns="http://jabber.org/protocol/ibb" sid="S" block-size="16" stanza="iq"/></iq>`, peerJID))
+	var conn net.Conn
+	select {
+	case conn = <-acc:
+	case <-time.After(watchdog):
+		return
+	}
+	p.pump(func() bool { return p.replies["o1"] != "" })
+	type res struct {
+		n   int
+		err error
+	}
+	ch := make(chan res, k)
+	var skipped []c06.Ev
+	for i := 0; i < k; i++ {
+		label := fmt.Sprintf("rd%d", i)
+		p.ctl.Go(label, func() {
+			b := make([]byte, 64)
+			n, err := conn.Read(b)
+			ch <- res{n, err}
+		})
+		if _, ok := p.ctl.Wait(watchdog, func(e c06.Ev) bool { return e.Who == label && e.What == "park:ibb.read.wait" }, &skipped); !ok {
+			r.Notes = append(r.Notes, "readers: a reader did not reach the yield point")
+			return
+		}
+	}
+	var toks []string
+	for _, ev := range strings.Split(events, ",") {
+		switch ev {
+		case "c": // the peer closes
+			toks = append(toks, "C")
+			p.feed(fmt.Sprintf(`<iq xmlns="jabber:client" type="set" id="pc" from="%s"><close xmlns="http://jabber.org/protocol/ibb" sid="S"/></iq>`, peerJID))
+			p.pump(func() bool { return p.replies["pc"] != "" })
+		case "C": // local Close
+			toks = append(toks, "C")
+			done := make(chan struct{})
+			go func() { conn.Close(); close(done) }()
+			p.pump(func() bool {
+				select {
+				case <-done:
+					return true
+				default:
+					return false
+				}
+			})
+		case "p":
+			toks = append(toks, "P3")
+			p.feed(fmt.Sprintf(`<iq xmlns="jabber:client" type="set" id="d1" from="%s"><data xmlns="http://jabber.org/protocol/ibb" seq="0" sid="S">QUJD</data></iq>`, peerJID))
+			p.pump(func() bool { return p.replies["d1"] != "" })
+		}
+	}
+	p.sync()
+	for i := 0; i < k; i++ {
+		p.ctl.Release(fmt.Sprintf("rd%d", i), "ibb.read.wait")
+	}
+	returned, delivered, eofs := 0, 0, 0
+	deadline := time.After(watchdog)
+collect:
+	for returned < k {
+		select {
+		case x := <-ch:
+			returned++
+			delivered += x.n
+			if x.n == 0 && x.err == io.EOF {
+				eofs++
+			}
+		case <-deadline:
+			break collect
+		}
+	}
+	line := fmt.Sprintf("readers %d %s", k, common.Join(toks, ","))
+	r.Line(line, fmt.Sprintf("returned=%d delivered=%d eofs=%d", returned, delivered, eofs))
+	r.Case(line+events, true, "readers")
+	if returned < k {
+		r.Fail("deliver", "pending-reads-not-all-ended-by-close", []string{r.Prop + " " + line, "#events=" + events + " (c: the peer closes, C: local Close, p: a data packet)"},
+			fmt.Sprintf("%d goroutines were blocked in Read when the stream was closed; only %d returned", k, returned))
+	}
 }
